@@ -64,6 +64,21 @@ def rawC {K : Type} [Add K] [Sub K] [Mul K] [Zero K] [IntCast K] [LT K] [Decidab
 
 def hexTol : Rat := 1 / 10000000
 
+/-- the record (`a`, `b`, `c`, the `maxindex` used, the normal) of the run behind a successful `fsbEntry`: read only
+    for the diagnostics of the reply (`n`, margin flags); rows, output form and normal come from `fsbEntry`. -/
+def fsbRecord {K : Type} [Add K] [Sub K] [Mul K] [Zero K] [IntCast K] [LT K] [DecidableLT K] [DecidableEq K]
+    (vects : M3 K) (idx : List Int) (hex : Bool) (rh : Option Bool) (setting : String) (nOpt : Option Int) :
+    Option (ABC K) :=
+  match hklForm idx.length hex rh with
+  | .ok (_, conv) =>
+    match planeOf idx conv, c2p setting with
+    | .ok hkl, some L =>
+      match basisABC vects hkl L nOpt with
+      | .ok r => some r
+      | .error _ => none
+    | _, _ => none
+  | .error _ => none
+
 def handleFsb (useRat : Bool) (cut setting nS rhS kS : String) (rest : List String) : String :=
   match Cut.ofString? cut, optInt? nS, kS.toNat? with
   | some cut, some nOpt, some k =>
@@ -74,35 +89,35 @@ def handleFsb (useRat : Bool) (cut setting nS rhS kS : String) (rest : List Stri
       | none => err "format"
       | some vects =>
         let hex := isHexagonal vects hexTol
-        -- form of the plane / default of return_hexagonal: the model's `hklForm` and `planeOf`
         let rhOpt : Option Bool := if rhS = "1" then some true else if rhS = "0" then some false else none
-        let hkl? : Except String (IV × Bool) :=
-          match hklForm idx.length hex rhOpt with
-          | .error e => .error e
-          | .ok (rh, conv) => (planeOf idx conv).map fun v => (v, rh)
-        match hkl?, c2p setting with
-        | .error e, _ => err e
-        | _, none => err "value"
-        | .ok (hkl, rh), some L =>
-          let render := fun (a b c : IV) (pn : V3 Rat) (n : Int) (flags : List Bool) =>
-            let uv := orderRows cut a b c
-            let body := if rh then
-                "4 " ++ showRats (vector3to4 uv.r0 ++ vector3to4 uv.r1 ++ vector3to4 uv.r2)
-              else "3 " ++ showM3I uv
-            "ok " ++ body ++ " ; " ++ showM3I uv ++ " ; " ++ showV pn ++ " ; " ++ toString n ++ " ; " ++
-              " ".intercalate (flags.map showBool)
-          if useRat then
-            match basisABC vects hkl L nOpt with
-            | .error e => err e
-            | .ok r => render r.a r.b r.c r.pn r.n []
-          else
-            let (D, vi) := scaleInt vects
-            match basisABC vi hkl L nOpt with
-            | .error e => err e
-            | .ok r =>
+        let render := fun (uv : M3 Int) (rh : Bool) (pn : V3 Rat) (n : Int) (flags : List Bool) =>
+          let body := if rh then
+              "4 " ++ showRats (vector3to4 uv.r0 ++ vector3to4 uv.r1 ++ vector3to4 uv.r2)
+            else "3 " ++ showM3I uv
+          "ok " ++ body ++ " ; " ++ showM3I uv ++ " ; " ++ showV pn ++ " ; " ++ toString n ++ " ; " ++
+            " ".intercalate (flags.map showBool)
+        -- the whole call is the model's entry point `fsbEntry` (form of the plane, default of return_hexagonal,
+        -- refusals, centring matrix, the routine, the row order): the definition `fsbEntry_correct` and
+        -- `fsbEntry_value_error_iff` are about
+        if useRat then
+          match fsbEntry vects idx hex rhOpt setting cut nOpt with
+          | .error e => err e
+          | .ok (uv, rh, pn) =>
+            match fsbRecord vects idx hex rhOpt setting nOpt with
+            | none => err "op"
+            | some r => if showM3I (orderRows cut r.a r.b r.c) ≠ showM3I uv then err "op" else render uv rh pn r.n []
+        else
+          let (D, vi) := scaleInt vects
+          match fsbEntry vi idx hex rhOpt setting cut nOpt with
+          | .error e => err e
+          | .ok (uv, rh, pnI) =>
+            match fsbRecord vi idx hex rhOpt setting nOpt with
+            | none => err "op"
+            | some r =>
+              if showM3I (orderRows cut r.a r.b r.c) ≠ showM3I uv then err "op" else
               let d2 : Rat := ((D * D : Nat) : Rat)
-              let pn : V3 Rat := ⟨(r.pn.x : Rat) / d2, (r.pn.y : Rat) / d2, (r.pn.z : Rat) / d2⟩
-              render r.a r.b r.c pn r.n (marginFlags vi r (rawC vi r))
+              let pn : V3 Rat := ⟨(pnI.x : Rat) / d2, (pnI.y : Rat) / d2, (pnI.z : Rat) / d2⟩
+              render uv rh pn r.n (marginFlags vi r (rawC vi r))
     | _, _ => err "format"
   | _, _, _ => err "format"
 
